@@ -312,6 +312,10 @@ func cmdCheck(args []string) int {
 	jobs = append(jobs, lemmaJobs...)
 	prelude := e.Prelude()
 	outDir := filepath.Join(verifRoot, "out", id, *tier)
+	if *repo != "/repo" {
+		// a scratch copy (seeded change, harmless edit): its queries must not clobber those of a check of /repo, or of another copy
+		outDir = filepath.Join(verifRoot, "out", id, *tier+"_"+sanitize(filepath.Base(*repo)))
+	}
 	os.RemoveAll(outDir)
 	solveAll(jobs, prelude, filepath.Join(outDir, "vc"), timeout, seed, runtime.NumCPU())
 	// an obligation that was discharged on the reference tree and now times out is retried on its own, with three times
